@@ -47,9 +47,11 @@ func c03GenV(r *proto.Rng, n int, emit func(in ...string)) {
 		var keys, vals []string
 		for j := 0; j < k; j++ {
 			keys = append(keys, names[r.Intn(len(names))])
-			vals = append(vals, r.Pick("", "1", "a,b", "a, b ,,c", " x ", "1|2|3", "a b\tc", "p\tq", ",", "é,ü", "a,b,"))
+			vals = append(vals, r.Pick("", "1", "a,b", "a, b ,,c", " x ", "1|2|3", "a b\tc", "p\tq", ",", "é,ü", "a,b,",
+				"|", "a||b", " ", "\t", "a  b", "a\t\tb", "a|b,c d\te", "a\nb,c"))
 		}
-		cf := r.Pick("csv", "csv", "ssv", "tsv", "pipes", "multi", "CSV", "other")
+		// the declared formats and other spellings of them
+		cf := r.Pick("csv", "csv", "ssv", "tsv", "pipes", "multi", "CSV", "other", "SSV", "Pipes", "TSV", "Multi")
 		emit("V", r.Pick("v", "v", "r"), proto.L(keys), proto.L(vals), proto.B(names[r.Intn(len(names))]), cf)
 	}
 }
